@@ -24,6 +24,8 @@ enum OpKind {
   OP_BARRIER,        // Mode T: all tasks meet; task 0 of the barrier performs the nested ops alone
   OP_CO_CALL, OP_CO_RESUME, OP_CO_DESTROY,
   OP_END_SCOPE,      // the innermost C++ scope holding a scoped expectation ends (LIFO)
+  OP_UNWIND,         // an exception leaves every open scope: the scoped expectations die during stack unwinding
+  OP_ASSIGN_SEQ,     // a fresh sequence is move-assigned over a live one (the overwritten one ends like a destroyed one)
   OP_WIDE,           // C09: one call of a generated mock function of arity 0..15 with every passing mode
   OP_NOP,
   OP_KIND_COUNT
@@ -35,7 +37,7 @@ inline const char* op_name(int k) {
     "expect", "release", "abandon", "call", "q_sat", "q_completed",
     "new_watched", "destroy_watched", "copy_watched", "movecons_watched", "assign_watched",
     "req_destruction", "release_mon", "push_tracer", "pop_tracer", "set_reporter", "mutate",
-    "drop_mock_ref", "barrier", "co_call", "co_resume", "co_destroy", "end_scope", "wide", "nop"};
+    "drop_mock_ref", "barrier", "co_call", "co_resume", "co_destroy", "end_scope", "unwind", "assign_seq", "wide", "nop"};
   return (k >= 0 && k < OP_KIND_COUNT) ? n[k] : "?";
 }
 inline int op_kind_from_name(const char* s) {
